@@ -11,3 +11,4 @@ LEVEL_TEXT = "Reader.rows proved with the mode symbolic: output sequence, counte
 LEVEL_NOTE = "Trusts the pyvc encoding, z3/cvc5 and the dependency raise-sets (audited)."
 TECHNIQUE = "contract-based deductive verification (VCs from the ast of the real generator, z3/cvc5) + bounded cross-mode sweep with fault injection"
 UNITS = [VIO.unit_reader_rows(), VIO.unit_validate_row(), VIO.unit_module_rows_validate(), FX.unit_fixed_rows(), RD.unit_delimited_rows(), M.unit_modes_sweep()]
+UNITS += [VIO.unit_reader_init(), VIO.unit_validate_rows()]
